@@ -782,6 +782,9 @@ def mk_skein(rng, pb, px):
         r["key"] = B(rbytes(rng, rng.choice([0, 5, 16, 40])))
     if rng.random() < 0.2:
         r["Yl"], r["Yf"], r["Ym"] = 1, 1, rng.choice([2, 3])
+    for opt_ in ("prs", "PK", "kdf", "nonce"):
+        if rng.random() < 0.15:
+            r[opt_] = B(rbytes(rng, rng.choice([1, 8, 33])))
     n = nb // 8
     return pb.obj(r), {"nb": n, "bb": n, "pool": make_pool(rng, [0, 1, n - 1, n, n + 1, 2 * n, 2 * n + 3, 4 * n + 1])}
 
